@@ -31,7 +31,8 @@ THEOREMS = ["C18_loads", "C18_to_bytes", "C18_to_bytes_total", "C18_bound_quirk_
             "C18F_empty_file", "C18F_no_entries", "C18F_no_fuel", "C18F_nonvacuous_line",
             "C18F_nonvacuous_file", "C18F_nonvacuous_backtrack",
             "C18_text_printable", "C18_text_blocks", "C18_text_error", "C18_text_without_table", "C18_text_table_in_block_invisible", "C18_text_nested_blocks_inherit", "C18_text_inner_table_shadows", "C18_text_program", "C18_text_program_file", "C18_table_node_transparent"]
-PROOF_HEADER = "From A816 Require Import Properties.C18 Properties.C18File Properties.C18Scope Properties.C18Text."
+THEOREMS += ["C18_oracle_codec", "C18_oracle_asm", "C18_oracle_label_wraps", "C18_oracle_corr_implies_spec", "C18_oracle_check_consistent"]
+PROOF_HEADER = "From A816 Require Import Properties.C18Oracle Properties.C18 Properties.C18File Properties.C18Scope Properties.C18Text."
 THEOREMS += ["C18s_get_table_rule", "C18s_nearest", "C18s_nearest_encloses", "C18s_table_current_scope", "C18s_text_captures", "C18s_text_then_table", "C18s_compound_opens", "C18s_scope_opens", "C18s_macro_opens", "C18s_for_opens", "C18s_scoped_body", "C18s_macro_body_visible", "C18s_block_invisible", "C18s_scope_invisible", "C18s_macro_invisible", "C18s_for_invisible", "C18s_if_no_scope", "C18s_include_no_scope", "C18s_code_splice_no_scope", "C18s_tables_kept", "C18s_link_codegen", "C18s_embed_assemble", "C18s_embed_assemble_err", "C18s_initial_resolver_start", "C18s_embed_assemble_lorom", "C18s_embed_assemble_err_lorom", "C18s_passes", "C18s_text_node_layout", "C18s_text_node_layout_mini", "C18s_text_node_advance", "C18s_layout_program", "C18s_layout_lorom"]
 # model-tie modules whose correspondence is part of this property's check (parts of the model its theorems rest on)
 TIES = ['TBLFILE']
